@@ -19,7 +19,7 @@ OPS = [
     "add", "sub", "mul", "div", "pow", "min", "max", "radd", "rsub", "rmul", "rdiv", "add_num", "neg", "abs", "abs_m",
     "sign", "sum_to", "sum_over", "sum_nothing", "cumsum", "apply", "cast_to", "cast_same", "shares", "getitem",
     "getitem", "getitem_ellipsis", "getitem_bare", "copy", "full_like", "full", "from_superset", "constructor",
-    "to_df", "from_df", "split", "stack", "setitem_ndarray", "stock", "lifetime", "system", "dimset_ops",
+    "to_df", "from_df", "split", "stack", "setitem_ndarray", "stock", "lifetime", "system", "dimset_ops", "plot",
 ]
 INDEPENDENT = {
     "add", "sub", "mul", "div", "pow", "min", "max", "radd", "rsub", "rmul", "rdiv", "add_num", "neg", "abs", "abs_m",
@@ -195,6 +195,16 @@ def run_case(desc):
             mfa.check_mass_balance(raise_error=False)
         except Exception:
             pass
+    elif op == "plot":
+        from flodym.export import PlotlyArrayPlotter
+
+        x1 = x.sum_to(tuple(xl[:1]))
+        inputs["x1"] = x1
+        before["x1"] = build.snapshot(x1)
+        xa = fd.FlodymArray(dims=x1.dims, values=np.arange(float(x1.values.size)).reshape(x1.values.shape))
+        inputs["xa"] = xa
+        before["xa"] = build.snapshot(xa)
+        PlotlyArrayPlotter(array=x1, intra_line_dim=xl[0], x_array=xa).plot()
     elif op == "dimset_ops":
         sub = ds.get_subset(tuple(xl))
         other = x.dims
